@@ -356,7 +356,7 @@ def main(tier, n=None):
     rep.merge_pool(res, groups)
     rep.evaluations = rep.reach.get("c12_cases", 0)
     rep.distinct = set(rep.extra.get("case_sigs", ()))
-    return rep.finish(required_reach=["c12_restores", "c12_success_checks", "c12_failure_checks", "c12_existing_dir_checks", "c12_fault_crash", "c12_fault_dup", "c12_fault_truncate", "c12_fault_truncate-bytes", "c12_nontrivial"])
+    return rep.finish(required_reach=["c12_restores", "c12_success_checks", "c12_failure_checks", "c12_existing_dir_checks", "c12_existing_unrecorded_dir_checks", "c12_fault_crash", "c12_fault_dup", "c12_fault_truncate", "c12_fault_truncate-bytes", "c12_nontrivial"])
 
 
 def replay(path):
